@@ -11,13 +11,13 @@ open Rosmar Rosmar.Sql
 
 theorem tie_touch (cid : Nat) (k : String) (exp newCas now : Nat) (r : Row) :
     Writes (touchRow exp newCas now (some r)) (fun r' _ =>
-      Collection_GetAndTouchRaw_UPDATE_0.exec
+      upd_exp_revSeqNo__by_collection_key.exec
         (env [("exp", .int (absExp now exp)), ("$revSeqNo", .int (r.rev + 1)), ("key", .text k), ("c.id", .int cid)]) (some (enc cid k r))
         = { row := some (enc cid k r'), affected := 1 }) := by
   unfold touchRow
   dsimp only
   cases hv : r.value
   · simp
-  · simp [hv, Collection_GetAndTouchRaw_UPDATE_0, Update.exec, applySets, SRow.set, SRow.get, E.eval, env, enc, encV, ofBool, SV.truthy, SV.same]
+  · simp [hv, upd_exp_revSeqNo__by_collection_key, Update.exec, applySets, SRow.set, SRow.get, E.eval, env, enc, encV, ofBool, SV.truthy, SV.same]
 
 end Rosmar.Gen.Sql
